@@ -1,0 +1,72 @@
+//go:build verif
+
+// Contracts for the core keeper's msg server (comment-only; read by /verif's tibcvc).
+package keeper
+
+//@ import host "github.com/bianjieai/tibc-go/modules/tibc/core/24-host"
+
+// Module invariants (DESIGN §3). I3: a packet handed to an application still has its receipt, or lies at or below
+// the clean point of its pair. I8: an acknowledged packet has no commitment any more.
+//@ invariant I3: forall s: str, d: str, n: u64 :: delivered[receipt(s, d, n)] ==> present(tibc[receipt(s, d, n)]) || n <=u u64(tibc[cleanPt(s, d)])
+//@ invariant I8: forall s: str, d: str, n: u64 :: acked[commit(s, d, n)] ==> !present(tibc[commit(s, d, n)])
+//@ invariant Ikeys: (forall k: key :: delivered[k] ==> is_receipt(k)) && (forall k: key :: acked[k] ==> is_commit(k))
+
+//@ func (msgServer).RecvPacket(goCtx, msg) (resp, err)
+//@   props C01 C02 C03 C11 C13 C19
+//@   modifies tibc, events, delivered, app
+//@   let p  = msg.Packet
+//@   let me = clientkeeper.selfName(tibc)
+//@   let rk = receipt(p.SourceChain, p.DestinationChain, p.Sequence)
+//@   let ak = ack(p.SourceChain, p.DestinationChain, p.Sequence)
+//@   let mk = maxAck(p.SourceChain, p.DestinationChain)
+//@   requires I3: inv(I3)
+//@   ensures keeper.once: ncalls((Keeper).RecvPacket) == 1 && (forall k in calls((Keeper).RecvPacket) :: k.packet == p && k.proof == msg.ProofCommitment && k.proofHeight == msg.ProofHeight)
+//@   ensures cb.guard:   forall c in calls(TIBCModule.OnRecvPacket) :: c.packet == p && p.DestinationChain == me && c.self == routingtypes.routeOf(p.Port)
+//@                          && (forall k in calls((Keeper).RecvPacket) :: k.err == nil)
+//@   ensures cb.once:    ncalls(TIBCModule.OnRecvPacket) <= 1
+//@   ensures no_app:     p.DestinationChain != me ==> !called(TIBCModule.OnRecvPacket)
+//@   ensures deliver:    err == nil && p.DestinationChain == me && (forall k in calls((Keeper).RecvPacket) :: k.err == nil) ==> called(TIBCModule.OnRecvPacket)
+//@   ensures ack.bytes:  forall w in calls((Keeper).WriteAcknowledgement) :: w.packet == p &&
+//@                          (forall c in calls(TIBCModule.OnRecvPacket) :: w.acknowledgement == c.ack) &&
+//@                          (forall k in calls((Keeper).RecvPacket) :: k.err == nil ==> called(TIBCModule.OnRecvPacket))
+//@   ensures propagate:  (forall k in calls((Keeper).RecvPacket) :: k.err != nil && k.err != sdkerrors.ErrUnauthorized ==>
+//@                          err != nil && !called(TIBCModule.OnRecvPacket) && !called((Keeper).WriteAcknowledgement))
+//@   ensures propagate.cb:  (forall c in calls(TIBCModule.OnRecvPacket) :: c.err != nil ==> err != nil)
+//@   ensures propagate.ack: (forall w in calls((Keeper).WriteAcknowledgement) :: w.err != nil ==> err != nil)
+//@   ensures unauth.exact:  (forall k in calls((Keeper).RecvPacket) :: k.err == sdkerrors.ErrUnauthorized && err == nil ==>
+//@                          app == old(app) && delivered == old(delivered) && present(tibc[ak]) && len(val(tibc[ak])) == 32 &&
+//@                          (forall q: key :: q != rk && q != ak && q != mk ==> tibc[q] == old(tibc)[q]) && tibc[rk] == some("\x01"))
+//@   ensures I3.keep:    err == nil ==> inv(I3)
+//@
+//@ func (msgServer).Acknowledgement(goCtx, msg) (resp, err)
+//@   props C03 C11 C13 C19
+//@   modifies tibc, events, acked, app
+//@   let p  = msg.Packet
+//@   let me = clientkeeper.selfName(tibc)
+//@   requires I8: inv(I8)
+//@   ensures keeper.once: ncalls((Keeper).AcknowledgePacket) <= 1 && (forall k in calls((Keeper).AcknowledgePacket) :: k.packet == p &&
+//@                           k.acknowledgement == msg.Acknowledgement && k.proof == msg.ProofAcked && k.proofHeight == msg.ProofHeight)
+//@   ensures cb.guard:   forall c in calls(TIBCModule.OnAcknowledgementPacket) :: c.packet == p && c.acknowledgement == msg.Acknowledgement &&
+//@                           c.self == routingtypes.routeOf(p.Port) && called((Keeper).AcknowledgePacket) && (forall k in calls((Keeper).AcknowledgePacket) :: k.err == nil)
+//@   ensures cb.once:    ncalls(TIBCModule.OnAcknowledgementPacket) <= 1
+//@   ensures no_app:     p.SourceChain != me ==> !called(TIBCModule.OnAcknowledgementPacket)
+//@   ensures deliver:    err == nil && p.SourceChain == me ==> called(TIBCModule.OnAcknowledgementPacket)
+//@   ensures relay.reach: p.SourceChain != me ==> called((Keeper).AcknowledgePacket)
+//@   ensures propagate:  (forall k in calls((Keeper).AcknowledgePacket) :: k.err != nil ==> err != nil && !called(TIBCModule.OnAcknowledgementPacket))
+//@   ensures propagate.cb: (forall c in calls(TIBCModule.OnAcknowledgementPacket) :: c.err != nil ==> err != nil)
+//@   ensures I8.keep:    err == nil ==> inv(I8)
+//@
+//@ func (msgServer).CleanPacket(goCtx, msg) (resp, err)
+//@   props C10 C19
+//@   modifies tibc, events
+//@   requires seqbound: u64(tibc[maxAck(clientkeeper.selfName(tibc), msg.CleanPacket.DestinationChain)]) <u MAXU64
+//@   ensures keeper.once: ncalls((Keeper).CleanPacket) == 1 && (forall k in calls((Keeper).CleanPacket) :: k.cleanPacket == msg.CleanPacket)
+//@   ensures propagate:   (forall k in calls((Keeper).CleanPacket) :: (k.err != nil <==> err != nil))
+//@
+//@ func (msgServer).RecvCleanPacket(goCtx, msg) (resp, err)
+//@   props C10 C19
+//@   modifies tibc, events
+//@   requires seqbound: u64(tibc[maxAck(msg.CleanPacket.SourceChain, msg.CleanPacket.DestinationChain)]) <u MAXU64
+//@   ensures keeper.once: ncalls((Keeper).RecvCleanPacket) == 1 && (forall k in calls((Keeper).RecvCleanPacket) :: k.cleanPacket == msg.CleanPacket &&
+//@                           k.proof == msg.ProofCommitment && k.proofHeight == msg.ProofHeight)
+//@   ensures propagate:   (forall k in calls((Keeper).RecvCleanPacket) :: (k.err != nil <==> err != nil))
